@@ -95,6 +95,9 @@ func genDefs(t *rapid.T, c *Case) string {
 		c.Labels = append(c.Labels, "spare_capacity")
 		b.WriteString(fmt.Sprintf("XN = []\nfor _i in range(%d):\n    _row = []\n    for _j in range(3):\n        _row += [(_i * 7 + _j * 5) %% 4]\n    XN += [_row]\n", m))
 	}
+	// already ordered / single-element / empty lists: the shapes for which a "nothing to do" fast path of a
+	// copying builtin (sorted, reversed, +, slicing, filter ...) could hand back the shared list itself
+	b.WriteString("XSORTED = [\"alpha\", \"beta\", \"gamma\"]\nXONE = [\"solo\"]\nXNSORTED = [[1, 2, 3], [4, 5]]\n")
 	b.WriteString("XD = {\"k\": " + intList(t, 3) + ", \"s\": " + intList(t, 2) + "}\n")
 	b.WriteString("XM = [" + intList(t, 3) + ", {\"k\": " + intList(t, 2) + "}]\n")
 	b.WriteString("def get_xn():\n    return XN\n")
@@ -144,6 +147,17 @@ var attempts = []attempt{
 	{"dict_values_sorted", "a = sorted(XD.values())\nb = [sorted(v) for v in XD.values()]\nc = [reversed(v) for k, v in XD.items()]", true},
 	{"func_result_sorted", "a = sorted(get_first())\nb = reversed(get_xd(\"k\"))", true},
 	{"config_sorted", "a = sorted(CONFIG.BUILD_FILE_NAMES)\nb = reversed(CONFIG.BUILD_FILE_NAMES)\nc = CONFIG.BUILD_FILE_NAMES + [\"x\"]", true},
+	// derive a value with a copying builtin, then write into the result: must only ever touch the copy
+	{"sorted_then_assign", "a = sorted(XS)\na[0] = \"hij\"\nb = sorted(XSORTED)\nb[0] = \"hij\"\nc = sorted(XONE)\nc[0] = \"hij\"", true},
+	{"sorted_nested_then_assign", "a = sorted(XN[0])\na[0] = 31\nb = sorted(XNSORTED[0])\nb[0] = 32\nc = sorted(XNSORTED)\nc[0] = [33]", true},
+	{"sorted_reverse_then_assign", "a = sorted(XSORTED, reverse = True)\na[0] = \"hij\"\nb = sorted(XONE, reverse = True)\nb[0] = \"hij\"", true},
+	{"reversed_then_assign", "a = reversed(XS)\na[0] = \"hij\"\nb = reversed(XONE)\nb[0] = \"hij\"\nc = reversed(XNSORTED[1])\nc[0] = 34", true},
+	{"add_empty_then_assign", "a = XSORTED + []\na[0] = \"hij\"\nb = [] + XONE\nb[0] = \"hij\"\nc = XNSORTED[0] + []\nc[0] = 35", true},
+	{"full_slice_then_assign", "a = XSORTED[:]\na[0] = \"hij\"\nb = XONE[0:]\nb[0] = \"hij\"\nc = XNSORTED[0][:3]\nc[0] = 36", true},
+	{"times_one_then_assign", "a = XSORTED * 1\na[0] = \"hij\"", true},
+	{"filter_all_then_assign", "a = filter(lambda q: True, XSORTED)\na[0] = \"hij\"\nb = map(lambda q: q, XONE)\nb[0] = \"hij\"", true},
+	{"comprehension_all_then_assign", "a = [q for q in XSORTED]\na[0] = \"hij\"\nb = [q for q in XNSORTED[0] if True]\nb[0] = 37", true},
+	{"sorted_key_then_assign", "a = sorted(XSORTED, key = lambda q: q)\na[0] = \"hij\"", true},
 	// attempts that a correct implementation rejects (or that only touch copies)
 	{"index_assign", "XS[0] = \"zz\"", false},
 	{"index_assign_nested_direct", "XN[0] = [0]", false},
@@ -216,7 +230,7 @@ func gen(t *rapid.T) Case {
 	c.Mut1 = genMut(t, "mut1")
 	c.Mut2 = genMut(t, "mut2")
 	c.Observer = "subinclude(\"@DEFS@\")\n" +
-		"O1 = [x for x in XS]\nO2 = get_xn()\nO3 = CONFIG.VERIF_K\nO4 = get_first()\nO5 = XD[\"k\"] + XM[0]\nO6 = CONFIG.BUILD_FILE_NAMES\nO7 = json(XM)\nO8 = [get_xd(k) for k in sorted(XD.keys())]\nO9 = mk()\nO10 = dflt()\n" +
+		"O1 = [x for x in XS]\nO2 = get_xn()\nO3 = CONFIG.VERIF_K\nO4 = get_first()\nO5 = XD[\"k\"] + XM[0]\nO6 = CONFIG.BUILD_FILE_NAMES\nO7 = json(XM)\nO8 = [get_xd(k) for k in sorted(XD.keys())]\nO9 = mk()\nO10 = dflt()\nO11 = XSORTED\nO12 = XONE\nO13 = XNSORTED\n" +
 		"build_rule(name = \"obs\", cmd = \" \".join([json(XN), json(XD), json(XM), json(O3)]), labels = XS + [str(len(XN[0]))] + O6)\n"
 	sort.Strings(c.Labels)
 	return c
